@@ -760,5 +760,11 @@ func peelsTo(now, was *smt.Term, allowed []*smt.Term) bool {
 //   to nil and the object goes back to its pool, so the change is unobservable through
 //   the connection; contracts of slidingWindow's own methods state their effect on it.
 func frameExempt(key string) bool {
+	// ghost records of the HTTP handshake (header values Set, request handed to the client):
+	// ghost-only state attached to objects the functions create themselves; its frame is
+	// not claimed
+	if strings.Contains(key, ".ghostHdr.") || strings.Contains(key, ".ghostClient.") || strings.HasSuffix(key, "map[string]string") {
+		return true
+	}
 	return strings.HasPrefix(key, "websocket.slidingWindow.buf.")
 }
